@@ -1,10 +1,14 @@
 package validators
 
 import (
+	"github.com/gopher-fleece/gleece/v2/common"
 	"github.com/gopher-fleece/gleece/v2/core/annotations"
 	"github.com/gopher-fleece/gleece/v2/core/metadata"
+	"github.com/gopher-fleece/gleece/v2/core/metadata/typeref"
 	"github.com/gopher-fleece/gleece/v2/core/validators/diagnostics"
+	"github.com/gopher-fleece/gleece/v2/definitions"
 	"github.com/gopher-fleece/gleece/v2/gast"
+	"github.com/gopher-fleece/gleece/v2/graphs"
 )
 
 func vhD(i int) string { return string(rune('0' + i)) }
@@ -22,6 +26,7 @@ type vhAnn struct {
 type vhLinkIn struct {
 	urlNames []string // {names} of the route template, in order
 	params   []string // non-context function parameter names
+	isStruct []bool   // per parameter: struct type (otherwise a primitive)
 	hasCtx   bool
 	anns     []vhAnn
 }
@@ -92,6 +97,26 @@ func vhRefLinkAccept(in vhLinkIn) bool {
 			return false
 		}
 	}
+	// at most one body, never a body together with form fields; non-body parameters are primitives
+	bodies, forms := 0, 0
+	for _, a := range in.anns {
+		if a.kind == annotations.GleeceAnnotationBody {
+			bodies++
+		}
+		if a.kind == annotations.GleeceAnnotationFormField {
+			forms++
+		}
+	}
+	if bodies > 1 || (bodies > 0 && forms > 0) {
+		return false
+	}
+	for i, p := range in.params {
+		for _, a := range in.anns {
+			if a.value == p && a.kind != annotations.GleeceAnnotationBody && in.isStruct[i] {
+				return false
+			}
+		}
+	}
 	return true
 }
 
@@ -112,8 +137,13 @@ func vhC10Link(maxUrl, maxParams, maxAnns int) {
 			symxAssume(prev != name) // Go forbids duplicate parameter names
 		}
 		in.params = append(in.params, name)
-		recv.Params = append(recv.Params, metadata.FuncParam{SymNodeMeta: metadata.SymNodeMeta{Name: name}, Ordinal: i,
-			Type: metadata.TypeUsageMeta{SymNodeMeta: metadata.SymNodeMeta{Name: "string"}}})
+		isStruct := symxBool("param" + vhD(i) + ".struct")
+		in.isStruct = append(in.isStruct, isStruct)
+		tm := metadata.TypeUsageMeta{SymNodeMeta: metadata.SymNodeMeta{Name: "string", SymbolKind: common.SymKindBuiltin}}
+		if isStruct {
+			tm = metadata.TypeUsageMeta{SymNodeMeta: metadata.SymNodeMeta{Name: "Payload", PkgPath: "example.com/p", SymbolKind: common.SymKindStruct}}
+		}
+		recv.Params = append(recv.Params, metadata.FuncParam{SymNodeMeta: metadata.SymNodeMeta{Name: name}, Ordinal: i, Type: tm})
 	}
 	if symxBool("ctx") {
 		in.hasCtx = true
@@ -129,7 +159,7 @@ func vhC10Link(maxUrl, maxParams, maxAnns int) {
 		t := "ann" + vhD(i)
 		a := vhAnn{kind: vhParamKinds[symxChoice(t+".kind", len(vhParamKinds))], value: symxString(t+".value", 1, 1, "abc")}
 		props := map[string]any{}
-		if symxBool(t + ".hasAlias") {
+		if a.kind != annotations.GleeceAnnotationBody && symxBool(t+".hasAlias") {
 			a.hasAlias = true
 			a.alias = symxString(t+".alias", 1, 1, "abx")
 			props["name"] = a.alias
@@ -141,13 +171,35 @@ func vhC10Link(maxUrl, maxParams, maxAnns int) {
 	}
 	holder := annotations.NewAnnotationHolderFromData(attrs, nil)
 	recv.Annotations = &holder
+	strKey := graphs.NewUniverseSymbolKey("string")
+	strRef := typeref.NewNamedTypeRef(&strKey, nil)
+	for i := range recv.Params {
+		recv.Params[i].Annotations = &holder
+		recv.Params[i].FVersion = &gast.FileVersion{Path: "f.go"}
+		recv.Params[i].Type.Root = &strRef
+	}
+	// outside the property's rules: gleece does not support a primitive as the JSON body
+	for i, p := range in.params {
+		for _, a := range in.anns {
+			if a.value == p && a.kind == annotations.GleeceAnnotationBody {
+				symxAssume(in.isStruct[i])
+			}
+		}
+	}
 
 	lv, err := NewAnnotationLinkValidator(recv)
 	symxAssert(err == nil, "C10.link.constructs")
 	if err != nil {
 		return
 	}
-	diags := lv.Validate()
+	// the receiver-level decision: common annotation checks, parameter checks and the linker
+	// (as ReceiverValidator.Validate does; the return-type package lookup is outside)
+	rv := ReceiverValidator{CommonValidator: CommonValidator{holder: recv.Annotations}, receiver: recv}
+	diags := rv.CommonValidator.Validate()
+	paramDiags, perr := rv.validateParams(recv)
+	symxAssert(perr == nil, "C10.params.no-hard-error")
+	diags = append(diags, paramDiags...)
+	diags = append(diags, lv.Validate()...)
 	symxRecord("ndiags", len(diags))
 	rejected := false
 	for _, d := range diags {
@@ -185,3 +237,69 @@ func vhC10Link(maxUrl, maxParams, maxAnns int) {
 }
 
 func vh_C10_link_Q() { vhC10Link(1, 2, 2) }
+
+// ---- C04 (v): enforceSecurityOnAllRoutes leaves no open route
+
+func vhSecHolder(tag string, extra []annotations.Attribute) (*annotations.AnnotationHolder, int) {
+	n := symxChoice(tag+".nsec", 3)
+	attrs := append([]annotations.Attribute{}, extra...)
+	for i := 0; i < n; i++ {
+		attrs = append(attrs, annotations.Attribute{Name: annotations.GleeceAnnotationSecurity, Value: "s" + vhD(i),
+			Properties: map[string]any{"scopes": []any{"r"}}})
+	}
+	h := annotations.NewAnnotationHolderFromData(attrs, nil)
+	return &h, n
+}
+
+func vh_C04_enforce_Q() {
+	cfg := &definitions.GleeceConfig{}
+	cfg.RoutesConfig.AuthorizationConfig.EnforceSecurityOnAllRoutes = symxBool("enforce")
+	hasDefault := symxBool("default")
+	if hasDefault {
+		cfg.OpenAPIGeneratorConfig.DefaultRouteSecurity = &definitions.SecurityAnnotationComponent{SchemaName: "s0", Scopes: []string{"r"}}
+	}
+	ctrlHolder, nCtrl := vhSecHolder("ctrl", nil)
+	routeHolder, nRoute := vhSecHolder("route", []annotations.Attribute{{Name: annotations.GleeceAnnotationMethod, Value: "GET"}, {Name: annotations.GleeceAnnotationRoute, Value: "/r"}})
+	ctrl := &metadata.ControllerMeta{Struct: metadata.StructMeta{SymNodeMeta: metadata.SymNodeMeta{Name: "Ctl", Annotations: ctrlHolder}}}
+	recv := &metadata.ReceiverMeta{SymNodeMeta: metadata.SymNodeMeta{Name: "Op", Annotations: routeHolder}}
+	rv := ReceiverValidator{CommonValidator: CommonValidator{holder: routeHolder}, gleeceConfig: cfg, parentController: ctrl, receiver: recv}
+	diag, err := rv.validateSecurity(recv)
+	symxAssert(err == nil, "C04.enforce.no-hard-error")
+	open := nRoute == 0 && nCtrl == 0 && !hasDefault
+	if open {
+		symxCover("C04.enforce.open-route")
+	} else {
+		symxCover("C04.enforce.secured-route")
+	}
+	rejected := diag != nil && diag.Severity == diagnostics.DiagnosticError
+	symxAssert(rejected == (cfg.RoutesConfig.AuthorizationConfig.EnforceSecurityOnAllRoutes && open), "C04.enforce.rejected-iff-open-route")
+}
+
+// ---- C10: return signature and verb
+
+func vh_C10_retsig_verb_Q() {
+	n := symxChoice("nret", 4)
+	recv := &metadata.ReceiverMeta{SymNodeMeta: metadata.SymNodeMeta{Name: "Op"}}
+	for i := 0; i < n; i++ {
+		recv.RetVals = append(recv.RetVals, metadata.FuncReturnValue{SymNodeMeta: metadata.SymNodeMeta{Name: "r" + vhD(i)}, Ordinal: i})
+	}
+	verb := []string{"GET", "POST", "PUT", "DELETE", "PATCH", "OPTIONS", "HEAD", "TRACE", "CONNECT", "FETCH", ""}[symxChoice("verb", 11)]
+	h := annotations.NewAnnotationHolderFromData([]annotations.Attribute{{Name: annotations.GleeceAnnotationMethod, Value: verb}, {Name: annotations.GleeceAnnotationRoute, Value: "/r"}}, nil)
+	recv.Annotations = &h
+	_, diag := getDiagForRetSig(recv)
+	symxAssert((diag != nil && diag.Severity == diagnostics.DiagnosticError) == (n == 0 || n > 2), "C10.retsig.one-or-two-values")
+	cv := CommonValidator{holder: &h}
+	verbRejected := false
+	for _, d := range cv.Validate() {
+		if d.Severity == diagnostics.DiagnosticError {
+			verbRejected = true
+		}
+	}
+	supported := verb == "GET" || verb == "POST" || verb == "PUT" || verb == "DELETE" || verb == "PATCH"
+	if supported {
+		symxCover("C10.verb.supported")
+	} else {
+		symxCover("C10.verb.unsupported")
+	}
+	symxAssert(verbRejected == !supported, "C10.verb.supported-iff-accepted")
+}
